@@ -586,7 +586,11 @@ class InProtocolBase(ProtocolMixin):
             raise ValidationError(string)
 
         if duration['sign'] == "-":
-            delta *= -1
+            try:
+                delta *= -1
+            except OverflowError:
+                # timedelta.min is one microsecond short of -timedelta.max
+                raise ValidationError(string)
 
         return delta
 
